@@ -460,11 +460,13 @@ def c17_spoof(rng, count):
 
 
 # (rfailctx / wfailctx / rfailtmp: the same failures reported with errors that wrap a context error or call themselves temporary)
-ROLES = ['stuck', 'rfail', 'wfail', 'dialerr', 'slowdial', 'slowerr', 'unknown', 'rfailctx', 'wfailctx', 'rfailtmp']
+ROLES = ['stuck', 'rfail', 'wfail', 'dialerr', 'slowdial', 'slowerr', 'unknown', 'rfailctx', 'wfailctx', 'rfailtmp', 'wfaildeaf']
 
 
 def role_setup(role):
     """third peer t; returns (dial map, setup steps after attaching a, b[, t])"""
+    if role == 'wfaildeaf':       # the peer's reader does not look at its context (a blocking net.Conn framing)
+        return {}, [dict(attach('t', 3), what='deaf')], [fault(role, 3)]
     if role in ('stuck', 'rfail', 'wfail', 'rfailctx', 'wfailctx', 'rfailtmp'):
         return {}, [attach('t', 3)], [fault(role, 3)]
     plan = {'dialerr': 'err', 'slowdial': 'slow', 'slowerr': 'slowerr', 'unknown': None}[role]
